@@ -28,5 +28,7 @@ BugsWedge == {"wedge"}
 BugsPack == {"pack"}
 BugsNoGuard == {"noguard"}
 BugsEarly == {"early_persist"}
-BugsAsIs == {"wedge", "pack"}
+BugsStoreWedge == {"store_wedge"}
+BugsAsIs == {"store_wedge"}
+BugsPreFix == {"store_wedge", "wedge", "pack"}
 ====
